@@ -273,7 +273,9 @@ class C20(Prop):
                 if trig:
                     sim.count("probe:sibling_level_on_lookup_path")
                 try:
-                    got = sorted(((tuple(sorted(lab(r).items())), o) for r, o in real.retrieve(dict(l))), key=repr)
+                    # drained into a list first, as callers do: the resolved assignments must be independent dicts
+                    drained = list(real.retrieve(dict(l)))
+                    got = sorted(((tuple(sorted(lab(r).items())), o) for r, o in drained), key=repr)
                     exc = None
                 except Exception as e:  # the index raising on a well-formed lookup is a wrong answer
                     got, exc = None, type(e).__name__
